@@ -239,6 +239,12 @@ def run_property(prop: str, obs: list[Ob], *, tier: str, seed: int, level: str,
     known_hits = []
     undecided = []
     os.makedirs(os.path.join(VERIF, "replay"), exist_ok=True)
+    for old in os.listdir(os.path.join(VERIF, "replay")):       # replay files of earlier runs of this property are stale
+        if old.startswith(prop + ".") and old.endswith(".json"):
+            try:
+                os.remove(os.path.join(VERIF, "replay", old))
+            except OSError:
+                pass
     for i in real:
         o, v = obs[i], results[i]
         if v.status == REFUTED:
